@@ -395,4 +395,103 @@ theorem readFile_zones_pred (P : Zones → Prop) (cfg : Cfg)
       · cases h
       · exact go_zones_pred P cfg hP files fuel f ihf _ _ _ _ _ _ _ ls st' h hp
 
+/-! ## the list of opened files while reading -/
+
+/-- `readFile.go` changes the list of opened files only by opening an included file -/
+theorem go_used_pred (P : List Nat → Prop) (cfg : Cfg)
+    (files : List (List Stmt)) (fuel f : Nat)
+    (IH : ∀ g st ls st', readFile cfg files fuel g st = .ok (ls, st') → P st.used → P st'.used) :
+    ∀ (stmts : List Stmt) (sc : Scope) (zone : String) (mute : Nat) (cs : CondStack) (st : ReadSt)
+      (acc ls : List Line) (st' : ReadSt),
+      readFile.go cfg files fuel f stmts sc zone mute cs st acc = .ok (ls, st') → P st.used → P st'.used := by
+  intro stmts
+  induction stmts with
+  | nil =>
+    intro sc zone mute cs st acc ls st' h hp
+    rw [readFile.go.eq_1] at h
+    cases h
+    exact hp
+  | cons s0 rest ih =>
+    intro sc zone mute cs st acc ls st' h hp
+    rw [readFile.go.eq_def] at h
+    simp only [] at h
+    split at h
+    · obtain ⟨cs', _, h2⟩ := inc_bind_eq_ok h
+      exact ih sc zone mute cs' st acc ls st' h2 hp
+    · split at h
+      · exact ih sc zone mute cs st acc ls st' h hp
+      · split at h
+        · cases h
+        · split at h
+          · -- define
+            obtain ⟨syms, _, h2⟩ := inc_bind_eq_ok h
+            exact ih _ _ _ _ _ _ ls st' h2 hp
+          · -- include
+            obtain ⟨⟨ls1, st1⟩, hr, h2⟩ := inc_bind_eq_ok h
+            simp only [] at h2
+            exact ih _ _ _ _ st1 _ ls st' h2 (IH _ _ _ _ hr hp)
+          · -- label
+            split at h
+            · cases h
+            · split at h
+              · exact ih _ _ _ _ _ _ ls st' h hp
+              · exact ih _ _ _ _ _ _ ls st' h hp
+          · -- const
+            split at h
+            · cases h
+            · split at h
+              · cases h
+              · obtain ⟨L, _, h2⟩ := inc_bind_eq_ok h
+                exact ih _ _ _ _ _ _ ls st' h2 hp
+          · -- org
+            split at h
+            · cases h
+            · exact ih _ _ _ _ _ _ ls st' h hp
+          · -- memzone
+            split at h
+            · cases h
+            · exact ih _ _ _ _ _ _ ls st' h hp
+          · -- createZone
+            obtain ⟨zs, hz, h2⟩ := inc_bind_eq_ok h
+            exact ih _ _ _ _ _ _ ls st' h2 hp
+          · exact ih _ _ _ _ _ _ ls st' h hp
+          · exact ih _ _ _ _ _ _ ls st' h hp
+          · exact ih _ _ _ _ _ _ ls st' h hp
+
+
+/-- a property of the list of opened files that survives opening one more file that is not in it survives reading -/
+theorem readFile_used_pred (P : List Nat → Prop) (cfg : Cfg)
+    (hP : ∀ used f, used.contains f = false → P used → P (used ++ [f]))
+    (files : List (List Stmt)) :
+    ∀ (fuel f : Nat) (st : ReadSt) (ls : List Line) (st' : ReadSt),
+      readFile cfg files fuel f st = .ok (ls, st') → P st.used → P st'.used := by
+  intro fuel
+  induction fuel with
+  | zero => intro f st ls st' h; rw [readFile.eq_1] at h; cases h
+  | succ fuel ihf =>
+    intro f st ls st' h hp
+    rw [readFile.eq_2] at h
+    split at h
+    · cases h
+    · rename_i hnot
+      split at h
+      · cases h
+      · exact go_used_pred P cfg files fuel f ihf _ _ _ _ _ _ _ ls st' h (hP _ _ (by simpa using hnot) hp)
+
+/-- no file is opened twice: the list of opened files never holds a file id twice -/
+theorem readFile_used_nodup (cfg : Cfg) (files : List (List Stmt)) (fuel f : Nat) (st : ReadSt) (ls : List Line)
+    (st' : ReadSt) (h : readFile cfg files fuel f st = .ok (ls, st')) (hn : st.used.Nodup) : st'.used.Nodup := by
+  refine readFile_used_pred (fun u => u.Nodup) cfg ?_ files fuel f st ls st' h hn
+  intro used g hg hu
+  have hg' : g ∉ used := by
+    intro hm
+    have : used.contains g = true := by simpa using hm
+    rw [this] at hg; cases hg
+  rw [List.nodup_append]
+  refine ⟨hu, by simp, ?_⟩
+  intro a ha b hb
+  simp only [List.mem_singleton] at hb
+  subst hb
+  intro hab; subst hab; exact hg' ha
+
 end BV
